@@ -128,6 +128,41 @@ def plain_run(prog, items):
     return [repr(x) for x in sink.items], err, sink.completed, list(ctx.logs.get('da', []))
 
 
+def empty_precondition(prog, items):
+    """The stated precondition of C01: first / last / mean(reduce) are not applied to an empty group.  True when `prog` applies
+    one of them to nothing for this group (decided with the reference interpreter on the prefix in front of it, in the
+    multiplexed reading where take / first do not end a key), False when not, None when a prefix has no reference model."""
+    cur = list(items)
+    for o in prog:
+        if o[0] in ('first', 'last') or (o[0] == 'mean' and len(o) > 1 and o[1] is True):
+            if not cur:
+                return True
+        if o[0] == 'tee_map':
+            inner = [empty_precondition(b, cur) for b in o[2:]]
+            if True in inner:
+                return True
+            if None in inner:
+                return None
+        if not opspecs.has_model([o]):
+            return None
+        try:
+            cur = harness.model_all([o], cur)
+        except Exception:
+            return None
+    return False
+
+
+def skip_precondition(prog, groups_items, perr, merr_names):
+    """Whether an execution lies outside what C01 states."""
+    verdicts = [empty_precondition(prog, gi) for gi in groups_items]
+    if True in verdicts:
+        return True
+    if None in verdicts:
+        # no model for some prefix: fall back to the symptom (the by-design exceptions of the plain operators, on either side)
+        return any(e in SKIP_ERRORS for e in perr) or any(e in SKIP_ERRORS for e in merr_names)
+    return False
+
+
 def has_early(prog):
     return any(n in ('take', 'first') for n in harness.opnames(prog))
 
@@ -169,7 +204,7 @@ def run_case(case, acc):
                 plains = {g: plain(gi) for g, gi in groups.items()}
                 perr = [p[1] for p in plains.values() if p[1]]
                 merr = type(sink.error).__name__ if sink.error is not None else None
-                if any(e in SKIP_ERRORS for e in perr):
+                if skip_precondition(prog, list(groups.values()), perr, [merr] if merr else []):
                     acc.skipped += 1
                     continue
                 vs = []
@@ -277,7 +312,7 @@ def run_case(case, acc):
             plains = [plain(tuple(l[1])) for l in hl]
             perr = [p[1] for p in plains if p[1]]
             tail_err = [ev[2][1] for ev in ctx.log('t') if ev[0] == 'e']
-            if any(e in SKIP_ERRORS for e in perr):
+            if skip_precondition(prog, [list(l[1]) for l in hl], perr, ([merr] if merr else []) + list(tail_err)):
                 acc.skipped += 1
                 continue
             vs = []
